@@ -593,6 +593,10 @@ def check_C04(chk):
                 continue
             bit = r.randint(0, 8 * s['mlen'] - 1) if s['tam'] == 1 else 8 * s['mlen'] + r.randint(0, 63)
             g.append(dec_line(f"z{mode}{i}", mode, s, d, flip(c, bit), pf=r.choice([0, 255, 165, 1])))
+            if i % 3 == 1:
+                # the genuine packet under the same (possibly degenerate: all-ones, all-zero, single-bit) key: anything but
+                # acceptance would be a rejection that leaves the plaintext in the buffer
+                g.append(dec_line(f"g{mode}{i}", mode, s, d, c, pf=r.choice([0, 255, 165])))
             # the same rejected packet with the caller's buffers touching each other (see tjdrive.c: lay=, adj=)
             if i % 2 == 0:
                 g.append(dec_line(f"z{mode}{i}lay", mode, s, d, flip(c, bit), pf=r.choice([255, 165, 1])) + f" lay={(i // 2) % 4 + 1}")
